@@ -533,6 +533,7 @@ def run(ctx):
     rule_leaf_pattern_kind(ctx)
     rule_opened_skolems(ctx)
     rule_sealed_intro(ctx)
+    rule_seal_opening(ctx)
     rule_type_traversals(ctx)
     ctx.rule("normalisation", "type-level beta-normalisation performs the audited steps: an application is unfolded into its whole "
                               "left-associated spine, the head AND every argument of the spine are normalised, abstractions consume "
@@ -542,3 +543,84 @@ def run(ctx):
     golden.check(ctx, "normalisation", "golden_normalize.json")
     ctx.assume("completeness, the exact diagnostic kind, inference and expected-type preparation are NOT decided")
     return {}
+
+
+def _seal_opening_sites(facts):
+    """(key -> count, key -> loc): calls that open a sealed definition (unroll / unroll_k / reveal_*) in the judgments of check/"""
+    from . import c01
+    seen, locs = {}, {}
+    for fn, bd in sorted(facts.bodies().items()):
+        f0 = bd["loc"][0]
+        if not f0.startswith("lang/statics/src/check/") or "::tests::" in fn or "{closure" in fn or f0.endswith(("error.rs", "lub.rs")):
+            continue
+        h = facts.hir(fn)
+        if not h:
+            continue
+        owner = c01._short_owner(fn)
+        par = c01._parents(h["body"])
+
+        def arm_of(x):
+            out, cur = [], x
+            while id(cur) in par:
+                p = par[id(cur)]
+                if H.kind(p) == "Match" and not p.get("src"):
+                    for a in p["arms"]:
+                        if a is cur or a["body"] is cur or a.get("guard") is cur:
+                            out.append(re.sub(r"[({].*", "", A.pat_shape(a["pat"]).split("|")[0]))
+                cur = p
+            return "/".join(reversed(out))[:70]
+        for c in H.walk(h["body"]):
+            if H.kind(c) not in ("Call", "MethodCall"):
+                continue
+            cal = H.callee(c) or ""
+            m = re.search(r"::(unroll|unroll_k|unroll_opening|reveal_k|reveal_or_refine_\w+)$", cal)
+            if not m:
+                continue
+            key = "%s:%s:%s" % (owner, arm_of(c), m.group(1))
+            seen[key] = seen.get(key, 0) + 1
+            locs.setdefault(key, [f0, c.get("ln")])
+    return seen, locs
+
+
+def rule_seal_opening(ctx):
+    import json
+    import os
+    rule = "seal-opening"
+    facts = ctx.facts
+    ctx.rule(rule, "a `def`-sealed type is opaque outside its definition: the judgments of check/ look through a seal (unroll / unroll_k / "
+                   "reveal_*) only at the inventoried places — function, enclosing former arms, callee "
+                   "(rules/seal_opening_sites.json: the tree's declared behaviour; e.g. tuples, packages, constructors, comatch and "
+                   "copattern clauses open the expected type, `fn` at a computation type does NOT). A NEW opening site is reported: it "
+                   "makes a former usable through a seal that hid it (`def Step : CType = Int64 -> Ret Int64`, `{ fn x => ret x } : Thk "
+                   "Step` accepted)")
+    path = os.path.join(os.path.dirname(os.path.dirname(os.path.dirname(os.path.dirname(os.path.abspath(__file__))))), "rules", "seal_opening_sites.json")
+    try:
+        table = json.load(open(path))
+    except OSError:
+        ctx.anchor_lost(rule, "rules/seal_opening_sites.json missing")
+        return
+    seen, locs = _seal_opening_sites(facts)
+    for key, cnt in sorted(seen.items()):
+        want = table.get(key)
+        if want is None or cnt > want:
+            ctx.violation(rule, key + (":extra" if want else ""), "the checker opens a sealed definition at a place that is not in the inventory "
+                          "(%s, %d site(s), %d inventoried): the former of that arm becomes usable through a `def` seal"
+                          % (key, cnt, want or 0), locs[key])
+        else:
+            ctx.ok(rule, key, {"sites": cnt})
+    ctx.floor(rule, "seal-opening sites classified", sum(seen.values()), 20)
+    # copattern clauses open the expected type for DESTRUCTORS (a sealed codata type is only named by its seal); the function formers
+    # are taken from the type as written (F69)
+    fn = "zydeco_statics::check::copattern::CopatternElaborator::elaborate_k"
+    h = facts.hir(fn)
+    if h is None:
+        ctx.anchor_lost(rule, fn + " not found")
+    else:
+        env = A.ArmEnv(); env.strip = True; env.bind_params(h); env.absorb(h["body"])
+        written = [A.sexpr(c, env) for c in H.walk(h["body"]) if H.kind(c) in ("Call", "MethodCall") and re.search(r"::normalize(_k)?$", H.callee(c) or "")]
+        as_written = any("unroll" not in w and re.search(r"\(\. \$P0 expected\)", w) for w in written)
+        rejects = any(H.kind(x) == "Struct" and (x["path"].get("def") or "").endswith("TyckError::TypeExpected") for x in H.walk(h["body"]))
+        ctx.check(as_written and rejects, rule, "copattern:function-formers-as-written", "the copattern elaborator chooses Arrow / Forall / PackPi from "
+                  "the UNROLLED expected type only (written view: %s, TypeExpected: %s): `{ comatch | x => ret x end } : Thk F` with `def F : CType "
+                  "= Int64 -> Ret Int64` is accepted although the seal hides the arrow (`{ fn x => ret x }` is rejected)" % (as_written, rejects),
+                  facts.bodies()[fn]["loc"], detail={"function formers": "taken from the normalized, not unrolled, expected type"})
